@@ -31,8 +31,10 @@ struct Ep
     uint8_t str;
     char name;
 };
-// A/B differ only in the stream id, A/C only in the device id
-static const Ep kEp[3] = {{1, 1, 'A'}, {1, 2, 'B'}, {2, 1, 'C'}};
+// A/B differ only in the stream id, A/C only in the low byte of the device id, A/D only in its HIGH byte
+// (a key that drops or folds any part of the endpoint makes two of them collide)
+constexpr int NEP = 4;
+static const Ep kEp[NEP] = {{1, 1, 'A'}, {1, 2, 'B'}, {2, 1, 'C'}, {0x0101, 1, 'D'}};
 
 static Bytes pattern(size_t len, unsigned tag)
 {
@@ -47,7 +49,7 @@ struct Sys
 {
     Decoder d;
     ref::ReassemblyModel m;
-    Decoder solo[3];
+    Decoder solo[NEP];
 };
 
 static std::vector<obs::PObs> decodeCopy(W& w, Decoder& d, const Bytes& f, bool isNull = false)
@@ -461,7 +463,7 @@ struct MergeTask
 static std::vector<MergeTask> mergeTasks(bool thorough)
 {
     std::vector<MergeTask> ts;
-    const int pairs[3][2] = {{0, 1}, {0, 2}, {1, 2}};
+    const int pairs[4][2] = {{0, 1}, {0, 2}, {1, 2}, {0, 3}};
     for (auto& p : pairs)
         for (int t0 = 0; t0 < 7; ++t0)
             for (int t1 = 0; t1 < 7; ++t1)
@@ -507,13 +509,19 @@ static void runMergeTask(W& w, const MergeTask& t, char oracle)
 // ---------------------------------------------------------------------------------------------
 // C17 alphabet (state-relative)
 constexpr int SYM_PER_EP = 18;
-constexpr int NSYM = 3 * SYM_PER_EP + 3;
+// endpoint D takes part with a reduced symbol set {U, F, I, L, payload-type 0}
+constexpr int ND = 5;
+static const int kDKinds[ND] = {0, 2, 5, 6, 12};
+constexpr int EPLESS = 3 * SYM_PER_EP + ND;   // first endpoint-less symbol
+constexpr int NSYM = EPLESS + 3;
 static const char* kSymName[SYM_PER_EP] = {"U", "UU", "F", "Ft", "F2", "I", "L", "Ib", "Lb", "Lv", "Lt", "It", "Z", "E", "O", "H", "UF", "P"};
 
 static std::string symName(int sym)
 {
+    if (sym >= EPLESS)
+        return sym == EPLESS ? "short5" : (sym == EPLESS + 1 ? "null" : "tecmp");
     if (sym >= 3 * SYM_PER_EP)
-        return sym == 3 * SYM_PER_EP ? "short5" : (sym == 3 * SYM_PER_EP + 1 ? "null" : "tecmp");
+        return std::string("D:") + kSymName[kDKinds[sym - 3 * SYM_PER_EP]];
     return std::string(1, kEp[sym / SYM_PER_EP].name) + ":" + kSymName[sym % SYM_PER_EP];
 }
 
@@ -521,14 +529,14 @@ static Bytes symbolFrame(int sym, const ref::ReassemblyModel& m, bool& isNull, i
 {
     isNull = false;
     ep = -1;
-    if (sym == 3 * SYM_PER_EP)
+    if (sym == EPLESS)
         return Bytes{1, 0, 0, 1, 1};
-    if (sym == 3 * SYM_PER_EP + 1)
+    if (sym == EPLESS + 1)
     {
         isNull = true;
         return {};
     }
-    if (sym == 3 * SYM_PER_EP + 2)
+    if (sym == EPLESS + 2)
     {
         ref::TecmpHdr h;
         h.device = 0x43; h.msgType = ref::TM_DATA; h.dataType = ref::TD_CAN; h.ifid = 5; h.ts = 77;
@@ -536,6 +544,11 @@ static Bytes symbolFrame(int sym, const ref::ReassemblyModel& m, bool& isNull, i
     }
     ep = sym / SYM_PER_EP;
     int k = sym % SYM_PER_EP;
+    if (sym >= 3 * SYM_PER_EP)
+    {
+        ep = 3;
+        k = kDKinds[sym - 3 * SYM_PER_EP];
+    }
     const Ep& e = kEp[ep];
     ref::FrameHdr fh;
     fh.device = e.dev; fh.stream = e.str; fh.version = 1; fh.msgType = ref::MT_DATA;
@@ -952,7 +965,7 @@ static void judgeFaulted(W& w, const BaseHist& h, const std::vector<Inst>& seq)
     Sys s;
     // expected recoveries: position in seq -> sent ids that must be delivered there
     std::map<size_t, std::vector<int>> mustDeliver;
-    for (int ep = 0; ep < 3; ++ep)
+    for (int ep = 0; ep < NEP; ++ep)
     {
         std::vector<size_t> sub;   // positions of this endpoint's frames
         for (size_t i = 0; i < seq.size(); ++i)
@@ -1086,7 +1099,7 @@ int main(int argc, char** argv)
     const bool thorough = opt.tier == "thorough";
     run.assumptions = {
         "segment payload sizes are drawn from {0,1,5,6} plus two variants that reassemble to 65535 and 65519/65520 bytes, trailing bytes from {0,3,20}, start counters from {0,1,65533,65534,65535}",
-        "three endpoints (1,1) (1,2) (2,1): two differ only in the stream id, two only in the device id",
+        "four endpoints (1,1) (1,2) (2,1) (0x0101,1): pairs differ only in the stream id, only in the low byte and only in the high byte of the device id",
         "VERIF_SEED is ignored: nothing is sampled",
     };
 
@@ -1109,7 +1122,7 @@ int main(int argc, char** argv)
             std::vector<MergeTask> two, three;
             for (auto& t : tasks)
                 (t.eps.size() == 2 ? two : three).push_back(t);
-            run.round("all interleavings of 2 endpoint streams: 3 endpoint pairs x 7x7 templates x 8x8 variants", two.size(),
+            run.round("all interleavings of 2 endpoint streams: 4 endpoint pairs x 7x7 templates x 8x8 variants (+ largest-message variants)", two.size(),
                       [&](W& w, uint64_t o) { runMergeTask(w, two[o], oracle); });
             run.round(fmt("all interleavings of 3 endpoint streams with <= %d frames in total x 8 variant triples", thorough ? 12 : 9), three.size(),
                       [&](W& w, uint64_t o) { runMergeTask(w, three[o], oracle); });
@@ -1148,7 +1161,7 @@ int main(int argc, char** argv)
             run.rule = "on every path of the C05 interleaving exploration and of the C17 symbol tree/BFS the shared real Decoder is compared, frame by "
                        "frame, with a solo real Decoder per endpoint that is fed only that endpoint's frames; distinct = distinct (state, delivery) outcomes";
         else
-            run.rule = "57-symbol state-relative alphabet (per endpoint: U, UU, F, F+trailing@65535, F v2/status, I/L correct, I/L counter+2, L wrong "
+            run.rule = "62-symbol state-relative alphabet (per endpoint: U, UU, F, F+trailing@65535, F v2/status, I/L correct, I/L counter+2, L wrong "
                        "version, L wrong type, I+trailing, payload-type 0, error flag, overrunning length, header-only, [U][F], partial header; plus "
                        "5-byte buffer, nullptr, TECMP frame): unmerged tree of copied real Decoders + BFS merged on (model state, verifPending dump); "
                        "invariant after every transition; distinct = distinct merged states";
